@@ -15,7 +15,7 @@ func genC06(o *hx.Out, tier string) {
 	drw := defineDialect(o, "common", d)
 	nfr := 14
 	if tier == "thorough" {
-		nfr = 400
+		nfr = 120
 	}
 	mkKey := func() *frame.V2Key {
 		b := make([]byte, 32)
